@@ -74,7 +74,7 @@ THEOREMS = [
         "vector_input_is_row write_input_normalised plumb_spec write_replaces_file read_back_bits read_back_bits_subnormal "
         "read_back_bits_finite read_back_needs_17 dir_matches_load_ascii sparse_views_ascii "
         # Props/C04Fix.lean: the repair candidates for F2 / F3 (patched writers, Model/Op4Fixed.lean)
-        "split_strings_spec nonbigmat_never_overflows_fixed nonbigmat_writes_fixed column_roundtrip_nonbigmat_fixed nonbigmat_unchanged_fixed fmtE_width_fixed width_fixed field_roundtrip_fixed ascii_value_half_unit_fixed ascii_values_roundtrip_fixed file_writes_fixed file_roundtrip_binary_fixed file_roundtrip_ascii_fixed decOfFx_zero ascii_entry_spec_fixed"
+        "split_strings_spec nonbigmat_never_overflows_fixed nonbigmat_writes_fixed column_roundtrip_nonbigmat_fixed nonbigmat_unchanged_fixed fmtE_width_fixed width_fixed field_roundtrip_fixed ascii_value_half_unit_fixed ascii_values_roundtrip_fixed file_writes_fixed file_roundtrip_binary_fixed file_roundtrip_ascii_fixed decOfFx_zero ascii_entry_spec_fixed write_domain_fixed file_roundtrip_binary_domain_fixed file_roundtrip_bytes_domain_fixed"
     ).split()
 ]
 TRUSTED = [
@@ -141,14 +141,15 @@ PARTIAL = (
     "(corpus/c04_F2_candidate_fix.diff, corpus/c04_F3_candidate_fix.diff; /repo is not patched, the model of the check is "
     "the present code): proved for the patched writers (Props/C04Fix.lean, Model/Op4Fixed.lean) are split_strings_spec, "
     "nonbigmat_never_overflows_fixed, nonbigmat_writes_fixed, column_roundtrip_nonbigmat_fixed, nonbigmat_unchanged_fixed, "
-    "file_writes_fixed, file_roundtrip_binary_fixed (F2: whole files at word level, no `henc` / `stringsFit` hypothesis) and "
+    "file_writes_fixed, file_roundtrip_binary_fixed, write_domain_fixed, file_roundtrip_binary_domain_fixed, "
+    "file_roundtrip_bytes_domain_fixed (F2: whole files at word level, on the true domain and at byte level - decodeBytes of "
+    "the patched bytes = canonFile -, no `stringsFit` hypothesis) and "
     "fmtE_width_fixed, width_fixed, field_roundtrip_fixed, ascii_value_half_unit_fixed, ascii_values_roundtrip_fixed, "
     "file_roundtrip_ascii_fixed, ascii_entry_spec_fixed, decOfFx_zero (F3: fields, value blocks and whole files, no `Fits` "
     "hypothesis; width for digits >= 1, value and file theorems for digits >= 2 because the float() lemma pyFloat_sciChars "
     "needs a decimal point in the mantissa and the fallback of digits = 1 prints none; the whole-file chain is the chain "
     "of file_roundtrip_ascii copied into the namespace Op4AFx - Lemmas/Op4FixedChain{A,B,C}.lean - with the three facts "
-    "about the formatter replaced); NOT done for the candidates: digits = 1 in the F3 value theorems, the byte-level and "
-    "true-domain versions file_roundtrip_bytes(_domain)_fixed / file_roundtrip_binary_domain_fixed, read_back_bits for the "
+    "about the formatter replaced); NOT done for the candidates: digits = 1 in the F3 value theorems, read_back_bits for the "
     "patched writer (it holds for a `Wide` value from 17 digits on only), the sparse views and the sparse-input branch "
     "of the patched writers (tied by the candidate checks, not proved)"
 )
